@@ -30,6 +30,7 @@ EXPLANATION = (
     ' (R6) over (kinds equal, set contains element) the ∈ kernel is `kinds equal AND contains` and the ∉ kernel is its exact negation.'
     ' (R7) each generator element is matched against its own scratch environment (declared inside the element loop), so bindings of a match that fails part-way cannot constrain the next element.'
     " (R8) the kind of a binary set operator's result is read from the result's own elements, never copied from an operand; (R9) a kind test under which a set kernel refills its cleared output is applied, with an Err, by the function that builds the kernel (no silent empty result)."
+    " (R10) scope forwarding: every evaluator that receives the local environment (the generator and qualifier variables of a comprehension) hands it to every sub-evaluator; none passes the literal None in the environment position (the body of a comprehension would be evaluated against the globals)."
 )
 
 ORACLE = {
@@ -337,6 +338,11 @@ def dispatcher_check(rep, rule, crate, builder, struct_name, first, second, wher
 
 # ---------------------------------------------------------------------------------------------------------------- run
 def run(F, rep, tier):
+    # R10: comprehension variables stay visible - every evaluator of the interpreter that receives the local environment forwards it (rules/scope_forward.py)
+    from rules import scope_forward
+    _nc, _ns = scope_forward.run(F, rep, "C14-R10")
+    rep.floor("C14-R10", "evaluators that receive the local environment", _nc, 25)
+    rep.floor("C14-R10", "sub-evaluator calls with an environment position", _ns, 80)
     rep.rule("C14-R1", "Hash for Value: every variant hashes its payload through a closed idiom; no self-recursive arm")
     rep.rule("C14-R2", "every mutation of MechSet.set is followed by num_elements = set.len()")
     rep.rule("C14-R3", "set operators reach the IndexSet method of that meaning with (lhs receiver, rhs argument); operand positions preserved at every hop")
